@@ -87,15 +87,19 @@ Definition doc_comment (docstr : val) : option comment :=
   | _ => let? d := first_of docstr in let? raw := as_str d in Some (Some (raw_comment_to_docstr raw))
   end.
 
+(** Go's [int] on the supported platforms: 64 bits, two's complement, [+] wraps around *)
+Definition wrap_int64 (x : Z) : Z := (x + 9223372036854775808) mod 18446744073709551616 - 9223372036854775808.
+
 (** the numbering loop of the Enum action (after the repair of the enum-numbering defect): a value
     without an explicit number is the previous value plus one, the first is 0; explicit numbers
-    are kept.  Go's [int] is 64 bits; overflow of [ev.Value + 1] is not modelled. *)
+    are kept.  [next = ev.Value + 1] is Go [int] arithmetic: after 9223372036854775807 it wraps to
+    -9223372036854775808 (observed on the real parser; known finding C10-F22). *)
 Fixpoint enum_number (vs : list (enum_value * bool)) (next : Z) : list enum_value :=
   match vs with
   | [] => []
   | (ev, explicit) :: t =>
     let v := if explicit then ev_value ev else next in
-    mkev (ev_comment ev) (ev_name ev) v (ev_anns ev) :: enum_number t (v + 1)
+    mkev (ev_comment ev) (ev_name ev) v (ev_anns ev) :: enum_number t (wrap_int64 (v + 1))
   end.
 
 Definition set_mod (m : Z) (f : field) : field :=
